@@ -1119,7 +1119,66 @@ def _linear(fn, e, syms, depth=4):
         for k, v in b.items():
             out[k] = out.get(k, 0) + (v if e["op"] == "+" else -v)
         return out
+    if e.get("k") == "bin" and e.get("op") == "*":
+        for x, y in ((e["l"], e["r"]), (e["r"], e["l"])):
+            c = const_value(x)
+            if c is None:
+                f = _linear(fn, x, syms, depth)
+                c = f.get(1) if f is not None and set(f) == {1} else None
+            if c is not None:
+                b = _linear(fn, y, syms, depth)
+                return None if b is None else {k: v * c for k, v in b.items()}
     return None
+
+
+def bound_fact(fn, atom, ndecl):
+    """Normalise a comparison atom to `K + C*v <= n` (n = the size parameter ndecl, v = one local that
+    the function modifies, K, C >= 0 constants): returns (K, C, v decl) or None.  Understands linear
+    comparisons (`n - v >= T`, `v + T <= n`) and counted loops `v < (n - A) / S` (floor division:
+    v < floor((n-A)/S)  <=>  A + S*v + S <= n, given n >= A)."""
+    if atom[0] != "cmp":
+        return None
+    defs = facts.local_defs(fn)
+
+    def syms(x):
+        if x.get("k") == "ref":
+            if x.get("decl") == ndecl:
+                return "n"
+            if x.get("dk") == "local" and len(defs.get(x["decl"], [])) != 1:
+                return x["decl"]
+        return None
+    _, _, op, _, ln, rn = atom
+    # counted form: v < E / S
+    for a, b, o in ((ln, rn, op), (rn, ln, facts._flip_op(op))):
+        if o != "<":
+            continue
+        v = strip_all_casts(a)
+        q = strip_all_casts(facts.expand(fn, b))
+        if v.get("k") == "ref" and syms(v) not in (None, "n") and q.get("k") == "bin" and q.get("op") == "/":
+            S = const_value(q["r"])
+            if S is None:
+                fS = _linear(fn, q["r"], syms)
+                S = fS.get(1) if fS is not None and set(fS) == {1} else None
+            E = _linear(fn, q["l"], syms)
+            if S and S > 0 and E is not None and E.get("n") == 1 and set(E) <= {"n", 1} and E.get(1, 0) <= 0:
+                return (-E.get(1, 0) + S, S, v["decl"])
+    l, r = _linear(fn, ln, syms), _linear(fn, rn, syms)
+    if l is None or r is None:
+        return None
+    d = dict(l)
+    for k, v in r.items():
+        d[k] = d.get(k, 0) - v
+    if op in ("<=", "<"):
+        d = {k: -v for k, v in d.items()}
+    elif op not in (">=", ">"):
+        return None
+    if op in (">", "<"):
+        d[1] = d.get(1, 0) - 1
+    # d >= 0 with d = n - C*v - K
+    vs = [k for k in d if k not in ("n", 1) and d[k] != 0]
+    if d.get("n") != 1 or len(vs) != 1 or d[vs[0]] >= 0 or d.get(1, 0) > 0:
+        return None
+    return (-d.get(1, 0), -d[vs[0]], vs[0])
 
 
 def rule_reject_reasons(res, rid, m):
